@@ -208,6 +208,20 @@ def snapshot(root: pathlib.Path) -> dict[str, bytes]:
     return out
 
 
+def dirs_of(root: pathlib.Path) -> set[str]:
+    """every directory below root (empty ones included), relative"""
+    out = set()
+    for dp, dn, _fn in os.walk(root):
+        for d in dn:
+            out.add(pathlib.Path(dp, d).relative_to(root).as_posix())
+    return out
+
+
+def parent_missing(rel: str, dirs: set[str]) -> bool:
+    par = pathlib.PurePosixPath(rel).parent.as_posix()
+    return par not in (".", "") and par not in dirs
+
+
 class Scenario:
     """One saveable thing in a scratch directory.
 
@@ -355,6 +369,16 @@ def build_scenarios(ctx: Ctx) -> list[Scenario]:
     scs.append(ModelScenario("model:fragmented", d, m._loader, skip_bump=("WriteTestModel.afm",)))
     scs[-1].keep = m
 
+    # the same model, but the folder of its fragments does not exist on disk: save() must fail and leave nothing
+    d = base / "fragmented-nofolder"
+    shutil.copytree(data / "writemodel", d)
+    add_fragments(d, "WriteTestModel.aird", 2)
+    m = capellambse.MelodyModel(d / "WriteTestModel.aird")
+    shutil.rmtree(d / "fragments")
+    scs.append(ModelScenario("model:fragment-folder-missing", d, m._loader, skip_bump=("WriteTestModel.afm",)))
+    scs[-1].keep = m
+    scs[-1].natural = True
+
     if ctx.thorough:
         for sub, aird in (("Library Test", "Library Test.aird"), ("filtering", "Filtered Project.aird"),
                           ("melodymodel/5_2", "Melody Model Test.aird")):
@@ -380,6 +404,7 @@ def build_scenarios(ctx: Ctx) -> list[Scenario]:
             (d / rel).parent.mkdir(parents=True, exist_ok=True)
             (d / rel).write_bytes(content)
         sc = DirectScenario(label, d, local.LocalFileHandler(d), ops)
+        sc.natural = label in ("direct:dup", "direct:missing-dir", "direct:user-exc", "direct:nested")
         sc.user_exc = make_exc("UserError")
         scs.append(sc)
 
@@ -401,6 +426,7 @@ def run_case(sc: Scenario, schedule: dict[int, tuple[str, bool]], dry_run: bool)
     sc.bump()
     frags = sc.frags()
     before = snapshot(sc.root)
+    dirs_before = dirs_of(sc.root)
     inj = Injector(sc.root, schedule)
     seen: BaseException | None = None
     warnings: list[str] = []
@@ -422,6 +448,7 @@ def run_case(sc: Scenario, schedule: dict[int, tuple[str, bool]], dry_run: bool)
     finally:
         lg.removeHandler(h)
     after = snapshot(sc.root)
+    dirs_after = dirs_of(sc.root)
     txn_after = sc.txn()
     # retry on the same object, no faults
     retry_exc: BaseException | None = None
@@ -432,13 +459,24 @@ def run_case(sc: Scenario, schedule: dict[int, tuple[str, bool]], dry_run: bool)
         except BaseException as e:  # noqa: BLE001
             retry_exc = e
     final = snapshot(sc.root)
+    dirs_final = dirs_of(sc.root)
     txn_final = sc.txn()
     if txn_final is not None:  # never let one case poison the next
         sc.handler._LocalFileHandler__transaction = None
     for rel in set(final) - set(before) - {p for p, _ in frags}:
         with contextlib.suppress(OSError):
             (sc.root / rel).unlink()
+    if getattr(sc, "natural", False):  # a scenario that must keep failing by itself: put its directory back as it was
+        for d in sorted(dirs_final - dirs_before, reverse=True):
+            shutil.rmtree(sc.root / d, ignore_errors=True)
+        for rel in set(final) - set(before):
+            with contextlib.suppress(OSError):
+                (sc.root / rel).unlink()
+        for rel, data in before.items():
+            if final.get(rel) != data:
+                (sc.root / rel).write_bytes(data)
     return dict(frags=frags, before=before, after=after, final=final, inj=inj, seen=seen, warnings=warnings,
+                dirs_before=dirs_before, dirs_after=dirs_after, dirs_final=dirs_final,
                 txn_after=txn_after, txn_final=txn_final, retry_exc=retry_exc, retry_trace=inj2.trace)
 
 
@@ -474,7 +512,7 @@ def monitor(sc: Scenario, schedule, dry_run: bool, r: dict) -> tuple[str, str] |
     seen = r["seen"]
     new = {p: DECL + pay for p, pay in r["frags"]}
     fired = inj.fired
-    natural = isinstance(sc, DirectScenario) and sc.label in ("direct:dup", "direct:missing-dir", "direct:user-exc", "direct:nested")
+    natural = getattr(sc, "natural", False)
     renamed = []  # targets whose rename call completed
     for i, (ev, p) in enumerate(inj.trace):
         if ev == "rename" and not any(f[0] == i for f in fired):
@@ -522,7 +560,8 @@ def monitor(sc: Scenario, schedule, dry_run: bool, r: dict) -> tuple[str, str] |
             # the scenario fails by itself (duplicate name, missing directory, user exception, nested transaction):
             # the caller must see that error or an injected one, never something else (e.g. a clean-up FileNotFoundError)
             nat_ok = (isinstance(seen, RuntimeError) and "already" in str(seen)) or seen is getattr(sc, "user_exc", None) \
-                or (isinstance(seen, FileNotFoundError) and "nodir" in str(seen.filename or ""))
+                or (isinstance(seen, FileNotFoundError) and seen.filename is not None
+                    and parent_missing(inj.rel(seen.filename), r["dirs_before"]))
             if not (nat_ok or seen in raising):
                 return bad("error-masked", f"caller saw {seen!r}, neither the scenario's own error nor an injected one")
             if raising and not nat_ok and raising[0] not in ch:
@@ -563,6 +602,18 @@ def monitor(sc: Scenario, schedule, dry_run: bool, r: dict) -> tuple[str, str] |
             return bad("temp-left", f"temporary files remain: {leftover}")
         if not r["warnings"]:
             return bad("silent-leftover", f"temp files {leftover} left without error or warning")
+
+    # --- directories: a failed or dry-run save leaves none behind; a successful one creates at most the folders of its files
+    new_dirs = sorted(r["dirs_after"] - r["dirs_before"])
+    gone_dirs = sorted(r["dirs_before"] - r["dirs_after"])
+    if gone_dirs:
+        return bad("dir-removed", f"directories disappeared: {gone_dirs}")
+    if new_dirs and (failed or dry_run):
+        return bad("dir-left", f"directories left behind by a {'failed' if failed else 'dry-run'} save: {new_dirs}")
+    if new_dirs:
+        needed = {pp.as_posix() for p in new for pp in pathlib.PurePosixPath(p).parents}
+        if not set(new_dirs) <= needed:
+            return bad("dir-left", f"directories created that hold none of the written files: {new_dirs}")
 
     # --- retry on the same object must succeed (unless the scenario fails by itself)
     if not natural:
@@ -616,13 +667,14 @@ def model_request(sc: Scenario, schedule, dry_run: bool, r: dict) -> tuple[dict,
                 p, pay = r["frags"][k]
                 k += 1
                 ops.append({"k": "frag", "path": p, "payload": [table.setdefault(pay, len(table) + 2)],
-                            "nodir": o[1].startswith("nodir/")})
+                            "nodir": parent_missing(p, r["dirs_before"])})
             elif o[0] == "raise":
                 ops.append({"k": "raise", "err": "user"})
             else:
                 ops.append({"k": "nested"})
     else:
-        ops = [{"k": "frag", "path": p, "payload": [table.setdefault(pay, len(table) + 2)], "nodir": False} for p, pay in r["frags"]]
+        ops = [{"k": "frag", "path": p, "payload": [table.setdefault(pay, len(table) + 2)],
+                "nodir": parent_missing(p, r["dirs_before"])} for p, pay in r["frags"]]
     # the order in which the implementation's set was iterated, as far as it was observed
     prio = []
     for ev, p in inj.trace:
